@@ -189,3 +189,37 @@ def stopsame_oracle(k, r, c, f, pr_):
 def fault_stop_same(k: int, r: bool, c: bool, f: bool, pr_: bool) -> Tuple[bool, List[int], List[int], List[int], List[int], bool, int]:
     text = '$SYM[*][ push("s", line_number()) %s stop(@k == line_number()) push("t", line_number()) ]' % FAULT["pyexc"]
     return _run_fault(text, k, policy_of(r, c, False, f, pr_, False))
+
+
+# ------------------------------------------------------------------ O5 validation-mode 'match'
+MATCH_MODES = {"match": (None, None, None, None), "match,no-raise,stop": (False, None, True, None), "match,no-fail": (None, None, None, False)}
+
+
+def match_oracle(kind, k, r, c, s, f, pr_, vm):
+    vr, vp, vs, vf = MATCH_MODES[vm]
+    raised, ret, s_, t_, errs, valid, printed = fault_oracle(k, r, c, s, f, pr_, vr, vp, vs, vf)
+    fired = 0 <= k < NREC
+    # validation-mode says match: a python exception inside a function leaves the offending line matching
+    k_returned = fired and kind == "pyexc" and not raised
+    return (raised, [i for i in ret if i != k], s_, [i for i in t_ if i != k], errs, valid, printed, k_returned)
+
+
+@ob(
+    "C05",
+    "O5-validation-match",
+    pre=["{KLO} <= k <= {KHI}"],
+    post="_ == match_oracle(kind, k, r, c, s, f, pr_, vm)",
+    bound="as O2, under validation-mode comments containing 'match' (alone, with 'no-raise, stop', with 'no-fail'): the policy flags "
+    "and their overrides decide raise/collect/stop/fail/print exactly as before; a python exception inside a function leaves the "
+    "offending line matching. For an argument-value error the offending line itself is left out of the comparison (whether it is "
+    "returned and whether later components of it run under match+stop is not specified by the docs)",
+    outside="match-mode semantics of the offending line for argument errors",
+    encodes=ENC + ["csvpath/matching/functions/function.py:Function.matches (argument errors handled in place)", "csvpath/matching/functions/args.py:Args.handle_errors_if",
+                   "csvpath/matching/productions/expression.py:Expression.matches (match_validation_errors)", "csvpath/modes/validation_mode.py"],
+    tiers={"quick": {"timeout": 900, "K": {"KLO": -1, "KHI": 5}, "shards": product(kind=["pyexc", "argval"], vm=list(MATCH_MODES), pr_=[False], r=[False])},
+           "thorough": {"timeout": 3000, "K": {"KLO": -1, "KHI": 5}, "shards": product(kind=["pyexc", "argval"], vm=list(MATCH_MODES), pr_=[False, True])}},
+)
+def fault_match(kind: str, vm: str, k: int, r: bool, c: bool, s: bool, f: bool, pr_: bool) -> Tuple[bool, List[int], List[int], List[int], List[int], bool, int, bool]:
+    text = '~ validation-mode: %s ~ $SYM[*][ push("s", line_number()) %s push("t", line_number()) ]' % (vm.replace(",", ", "), FAULT[kind])
+    raised, ret, s_, t_, errs, valid, printed = _run_fault(text, k, policy_of(r, c, s, f, pr_, False))
+    return (raised, [i for i in ret if i != k], s_, [i for i in t_ if i != k], errs, valid, printed, (k in ret) and kind == "pyexc")
